@@ -64,6 +64,52 @@ theorem verifyLoop_iff (l : List Bool) : verifyLoop l = true ↔ ∀ r ∈ l, r 
   | nil => simp [verifyLoop]
   | cons r rest ih => cases r <;> simp [verifyLoop, ih]
 
+theorem mem_zip_of_mem_right {α β : Type} (as : List α) (bs : List β) (h : as.length = bs.length) (b : β) (hb : b ∈ bs) :
+    ∃ a, (a, b) ∈ as.zip bs := by
+  induction bs generalizing as with
+  | nil => simp at hb
+  | cons x rest ih =>
+    cases as with
+    | nil => simp at h
+    | cons a as' =>
+      simp only [List.length_cons, Nat.add_right_cancel_iff] at h
+      rcases List.mem_cons.mp hb with e | e
+      · exact ⟨a, by simp [e]⟩
+      · obtain ⟨a', ha'⟩ := ih as' h e
+        exact ⟨a', by simp [ha']⟩
+
+/-- **any number of workers ≥ 1, any distribution of the transactions over them, any arrival order**: the verdict of
+the worker pool is the conjunction of all signature verdicts — independent of `runtime.NumCPU()`, of which goroutine
+took which transaction and of the order the results arrive in. -/
+theorem verify_worker_count_irrelevant (w : Nat) (hw : 1 ≤ w) (takes : List Nat) (verdicts : List Bool)
+    (hl : takes.length = verdicts.length) (ht : ∀ t ∈ takes, t < w) (arrivals : List Bool)
+    (hp : arrivals.Perm (workerResults w takes verdicts).flatten) : verifyLoop arrivals = verifyLoop verdicts := by
+  have _ := hw
+  rw [Bool.eq_iff_iff, verifyLoop_iff, verifyLoop_iff]
+  have hmem : ∀ b, b ∈ arrivals ↔ b ∈ verdicts := by
+    intro b
+    rw [hp.mem_iff]
+    simp only [workerResults, List.mem_flatten, List.mem_map, List.mem_range, List.mem_filter, decide_eq_true_eq]
+    constructor
+    · rintro ⟨l, ⟨k, _, rfl⟩, hb⟩
+      simp only [List.mem_map, List.mem_filter, decide_eq_true_eq] at hb
+      obtain ⟨p, ⟨hpz, _⟩, rfl⟩ := hb
+      exact (List.of_mem_zip hpz).2
+    · intro hb
+      obtain ⟨t, hz⟩ := mem_zip_of_mem_right takes verdicts hl b hb
+      have htw := ht t (List.of_mem_zip hz).1
+      refine ⟨_, ⟨t, htw, rfl⟩, ?_⟩
+      simp only [List.mem_map, List.mem_filter, decide_eq_true_eq]
+      exact ⟨(t, b), ⟨hz, rfl⟩, rfl⟩
+  exact ⟨fun h r hr => h r ((hmem r).mpr hr), fun h r hr => h r ((hmem r).mp hr)⟩
+
+example : verifyLoop (workerResults 3 [2, 0, 2, 1] [true, false, true, true]).flatten = verifyLoop [true, false, true, true] := by decide
+
+/-- why the worker count must never be 0 (it cannot with `runtime.NumCPU()`): without workers nothing is verified and
+the empty result stream reads as "all signatures good" although one is bad. -/
+theorem zero_workers_accept_invalid :
+    verifyLoop (workerResults 0 [] [false]).flatten = true ∧ verifyLoop [false] = false := by decide
+
 /-! ### checkKV -/
 
 /-- **checkKV**: the verdict depends neither on the order of the written keys nor on the order (or the Go map
